@@ -56,9 +56,18 @@ def nested_nums(v, top=True):
     return out
 
 
+def cross_type_anywhere(v):
+    """numerically equal numbers of different Go types anywhere below the slice (also in different elements: two maps or
+    inner slices that are equal as values but hold their numbers in different types)"""
+    nums = {}
+    for (x, ty) in nested_nums(v):
+        nums.setdefault(x, set()).add(ty)
+    return any(len(ts) > 1 for ts in nums.values())
+
+
 def triggers(c):
     t = set()
-    if c["op"] == "UniqueItems" and has_cross_type(c.get("data")):
+    if c["op"] == "UniqueItems" and (has_cross_type(c.get("data")) or cross_type_anywhere(c.get("data"))):
         t.add("C14-unique-items-distinguishes-numeric-types")
     if c["op"] in ("Enum", "EnumCase"):
         d = c.get("data") or {}
